@@ -26,7 +26,6 @@ pub fn run(args: &Args) -> i32 {
     .assume("field / key-value locks taken by custom components (field_lock, key_value_entry_lock) and royalty locks are exercised by the component probe check, not here")
     .floor("c51:substates_becoming_locked", 100)
     .floor("c51:attempts_on_locked", 300)
-    .floor("c51:writes_to_locked_substates_examined", 1)
     .floor("c51:locks_taken_by_script", 60);
     let mut report = Report::new(args, spec);
     let steps = scaled(args, args.tier.pick(700, 8000));
